@@ -70,10 +70,10 @@ ASSUMPTIONS = [
     "initial values are identity elements; non-commutative operators only for fold/accumulate on order-preserving bags",
     "order inside a groupby group, the representative kept by distinct(key=) and the choice among topk(key=) ties are not promised",
     "partition layout is taken as known only for from_delayed pieces and from_sequence(partition_size=)",
-    "disk shuffles write under /var/tmp/bag1/<pid>/ (removed after each case)",
+    "disk shuffles write under /var/tmp/vf-c48/<pid>/ (removed after each case)",
 ]
 
-SCRATCH = "/var/tmp/bag1"
+SCRATCH = "/var/tmp/vf-c48"
 KINDS = ["int", "str", "pair", "dict", "ilist"]
 
 
@@ -393,7 +393,45 @@ def _classify_accumulate(spec, sig):
         pass
 
 
-_CLASS_FLAGS = ("same_key_twice_in_task", "shared_iterator_partition", "accumulate_empty_first_partition")
+def _concrete_variant(spec, insert_lists):
+    """The same pipeline with concrete partitions where the failure classes below need one-shot iterators:
+    generator-returning map_partitions functions replaced by their list-returning twin and (insert_lists) an explicit
+    ``map_partitions(mp_list)`` in front of every operation that puts one partition twice into one task.  Both
+    changes are identities for the reference."""
+    ops = []
+    for i, op in enumerate(spec["ops"]):
+        if op["op"] == "map_partitions" and op["fn"] == "mp_gen":
+            op = dict(op, fn="mp_list")
+        if insert_lists and i > 0 and _same_key_twice(op):
+            ops.append({"op": "map_partitions", "fn": "mp_list"})
+        ops.append(op)
+    return {"src": spec["src"], "ops": ops}
+
+
+def _passes(spec):
+    try:
+        _check(spec)
+    except Violation:
+        return False
+    return True
+
+
+def _cause(spec, sig):
+    """Failure classification only (never part of the oracle): attribute a failure to one of the identified input
+    classes, or to none.  The two iterator classes are decided DIFFERENTIALLY: the failure must disappear when the
+    partitions are made concrete and nothing else changes; otherwise the failure is something else and is reported
+    with its full signature."""
+    if sig.get("shared_iterator_partition") is True:
+        if _passes(_concrete_variant(spec, False)):
+            return "iterator-partition-read-twice"
+    if sig.get("same_key_twice_in_task") is True:
+        if _passes(_concrete_variant(spec, True)):
+            return "lazy-partition-twice-in-one-task"
+    if sig.get("accumulate_empty_first_partition") is True and sig.get("symptom") == "raises:TypeError":
+        return "accumulate-empty-first-partition"
+    if sig.get("empty_bag") is True and sig.get("where") == "bag/core.py:_reduce" and sig.get("symptom") == "raises:TypeError":
+        return "fold-initial-all-partitions-empty"
+    return None
 
 
 def check(spec):
@@ -403,15 +441,15 @@ def check(spec):
         if any(op["op"] == "accumulate" for op in spec["ops"]):
             _classify_accumulate(spec, v.sig)
         sig = v.sig
-        fold_empty = sig.get("empty_bag") is True and sig.get("where") == "bag/core.py:_reduce"
-        if fold_empty or any(sig.get(f) is True for f in _CLASS_FLAGS):
+        cause = _cause(spec, sig)
+        sig["cause"] = cause
+        if cause is not None:
             # the failure belongs to an identified input class: the surrounding pipeline is irrelevant, keep the
-            # signature low-cardinality (one bucket per class and symptom)
-            for k in ("ops", "kind", "empty_partition", "empty_first_partition", "multi_stage_shuffle", "where"):
-                if k in sig and not (fold_empty and k == "where"):
+            # signature low-cardinality (one bucket per cause and symptom)
+            for k in ("ops", "kind", "empty_partition", "empty_first_partition", "multi_stage_shuffle", "where", "empty_bag",
+                      "shared_iterator_partition", "same_key_twice_in_task", "accumulate_empty_first_partition"):
+                if k in sig:
                     sig[k] = "*"
-            if not fold_empty:
-                sig["empty_bag"] = "*"
         raise
 
 
